@@ -219,3 +219,7 @@ impl CborCalculator {
         Ok(size)
     }
 }
+
+#[cfg(kani)]
+#[path = "/verif/kani/cbor_calculator.rs"]
+mod verif_kani_cbor_calculator;
